@@ -2,7 +2,7 @@
 import re
 
 from engines import effects, arms, typestate
-from engines.paths import enumerate_paths, classify_return
+from engines.paths import enumerate_paths, classify_return, emptiness_of
 from engines.prog import cname, term_str, op_place, place_fields
 from engines import terms as T
 
@@ -54,7 +54,10 @@ def uses_of(body, local):
                 if pl is not None and pl["l"] == local:
                     out.append(("move" if not pl["p"] else "proj", b, i, s))
             if rv["k"] in ("ref", "rawptr", "discr") and rv["place"]["l"] == local:
-                out.append(("discr" if rv["k"] == "discr" else "ref", b, i, s))
+                if rv["k"] == "discr" and rv["place"]["p"]:
+                    out.append(("proj", b, i, s))      # the discriminant of something inside (e.g. of the Ok payload)
+                else:
+                    out.append(("discr" if rv["k"] == "discr" else "ref", b, i, s))
         t = body.term(b)
         if t["k"] == "call":
             for ai, a in enumerate(t["args"]):
@@ -171,6 +174,20 @@ def check_match(body, local, bb):
             err_t = t["otherwise"]
         else:
             return "ok", "match"
+    # a second read of the discriminant further down (drop elaboration re-tests the value on an arm that already knows it
+    # is Ok): the `Err` edge there is infeasible when every path from the definition to this block pins the other variant
+    defblk = None
+    for b_ in range(body.n):
+        t_ = body.term(b_)
+        if t_["k"] == "call" and not t_["dest"]["p"] and t_["dest"]["l"] == local:
+            defblk = b_
+    if defblk is not None and defblk != bb:
+        try:
+            feasible = any(p.end == "stop" and len(p.blocks) >= 2 and p.blocks[-2] == bb for p in enumerate_paths(body, start=defblk, stop_at={err_t}, max_visits=1, limit=3000))
+        except Exception:
+            feasible = True
+        if not feasible:
+            return "ok", "match"
     for p in enumerate_paths(body, start=err_t, max_visits=1, limit=2000):
         if p.end != "return":
             continue
@@ -238,6 +255,11 @@ def run(ctx):
                     if isinstance(v, tuple) and v[0] == "bin" and v[1] in ("Eq", "Ne") and T.is_const_int(v[3], 0) and \
                             T.is_call(v[2], r"Vec::<T, A>::len$") and T.is_field(T.peel(v[2][2][0]), "bytes"):
                         conds["bytes.is_empty"] = truth if v[1] == "Eq" else not truth
+            # the decision that counts is the last one before the return (earlier ones belong to earlier loop iterations,
+            # e.g. `remaining != 0` right after remaining := bytes.len())
+            e_ = emptiness_of(p, lambda x: T.is_field(x, "bytes"), last=True)
+            if e_ is not None:
+                conds["bytes.is_empty"] = e_
             is_ok_none = rv[0] == "agg" and rv[3] == "Ok" and rv[4] and rv[4][0][0] == "agg" and rv[4][0][3] == "None"
             if is_ok_none:
                 n_none += 1
